@@ -319,6 +319,15 @@ def run(prog, ctx):
             res.violate("C08.M", "C08.M|zip-offset", "merge pairs table slices that start at different offsets: %s (offset %s) with %s (offset %s)" % (
                 show(a0)[:70], show(o0), show(a1)[:70], show(o1)), mrg.id, span)
     C.pairing_rule(res, prog, "C08.M", "countmin::sketch::CountMinSketch", "counts", "total_weight", 3)
+    # and the other way round: a method that scales / adds to the total also touches the table on that path
+    n_rev = 0
+    for f_, b_ in C.scalar_without_buffer(prog, "countmin::sketch::CountMinSketch", "counts", "total_weight"):
+        n_rev += 1
+        res.violate("C08.M", "C08.M|%s|total-only" % f_.id, "%s can change total_weight and return without having touched the table on that path: the table and the total "
+                    "no longer describe the same stream (an estimate can exceed the total)" % f_.id, f_.id)
+    res.obligations += 1
+    if not n_rev:
+        res.discharged += 1
     res.rule("C08.M", len(mi) + len(zips), 1, "table accesses / zips in merge")
     for nm in ("halve", "decay"):
         f = C.pub_fn(prog, K, nm)
